@@ -16,6 +16,8 @@
 package c12
 
 import (
+	"encoding/json"
+	"os"
 	"testing"
 
 	"verif/internal/ev"
@@ -25,13 +27,17 @@ func TestCheck(t *testing.T) {
 	r := ev.Start("C12")
 	defer r.Finish()
 	r.SetRule("cases: (1) invoker stress rounds: 3-32 goroutines x 3-6 Acquire/use/Release with PRNG cleaner delays, failures and context cancellations, GOMAXPROCS in {2,4,16}; " +
-		"(2) 30 generated Acquire/Release scripts over 4 threads, each replayed once per (cleaner call index x fault kind in {fail, block-ok, block-fail, block-cancel-waiter}) with 0-3 waiters arriving while the cleaner is held; " +
+		"(2) 24 (quick) generated Acquire/Release scripts over 4 threads, each replayed once per (cleaner call index x fault kind in {fail, block-ok, block-fail, block-cancel-waiter}) with 0-3 waiters arriving while the cleaner is held; " +
 		"(3) clean-runner rounds; (4) creator-stack stress with cacheable and do_not_cache digests; (5) scripted creator sequences replayed once per failing directory-call index and per failing cleaner-call index, " +
 		"with/without a long-lived holder action and with the real DirectoryCleaner or a no-op cleaner; (6) LocalBuildExecutor runs ending ok / by runner error / by cancellation / before the run. " +
 		"non-trivial = a fault was injected or a counted situation occurred; distinct = hash of the per-call outcomes (who cleaned, who failed) resp. of the fault position and resulting call counts")
 	r.Assume("the harness never runs one cacheable digest twice at once (the scheduler's de-duplication guarantees that to the worker)")
 	r.Assume("'users' is incremented after Acquire/GetBuildDirectory returns and decremented before Release/Close is called; transient states inside those calls are not judged")
 	r.Assume("with an injected RemoveAll failure the per-action directory may stay until the next idle clean; Close must then report an error")
+	if f := r.ReplayFile(); f != "" {
+		replay(r, f)
+		return
+	}
 	for _, s := range []string{"waiter-cancelled-during-clean", "clean-failure-on-acquire", "clean-failure-on-release", "acquirers-racing-after-release-clean",
 		"directory-creation-failure", "concurrent-actions-in-distinct-directories", "through-clean-runner",
 		"executor-ends-ok", "executor-ends-runner-error", "executor-ends-cancelled", "executor-ends-missing-command", "concurrent-executors",
@@ -41,7 +47,7 @@ func TestCheck(t *testing.T) {
 
 	// (1) invoker stress. GOMAXPROCS is process wide, so these rounds run
 	// one after the other and before everything else.
-	rounds := r.Pick(400, 8000)
+	rounds := r.Pick(300, 6000)
 	for i := 0; i < rounds; i++ {
 		rng := r.Rand(20, uint64(i))
 		cfg := stressCfg{Round: i, FailPct: []int{0, 10, 30}[rng.IntN(3)], CancelPct: []int{0, 20, 50}[rng.IntN(3)], Procs: []int{2, 4, 16}[rng.IntN(3)]}
@@ -54,7 +60,7 @@ func TestCheck(t *testing.T) {
 	}
 
 	// (2) stepped scenarios, all fault positions.
-	scripts := r.Pick(30, 600)
+	scripts := r.Pick(24, 400)
 	for s := 0; s < scripts; s++ {
 		rng := r.Rand(23, uint64(s))
 		steps := genScript(rng)
@@ -74,19 +80,19 @@ func TestCheck(t *testing.T) {
 	}
 
 	// (3) clean runner.
-	for i := 0; i < r.Pick(60, 1200); i++ {
+	for i := 0; i < r.Pick(60, 800); i++ {
 		rng := r.Rand(30, uint64(i))
 		cleanRunnerRound(r, runnerCfg{Round: i, Goroutines: 2 + rng.IntN(10), OpsEach: 3 + rng.IntN(5), FailPct: []int{0, 15, 40}[rng.IntN(3)]})
 	}
 
 	// (4) creator stack under concurrency.
-	for i := 0; i < r.Pick(40, 800); i++ {
+	for i := 0; i < r.Pick(40, 600); i++ {
 		rng := r.Rand(40, uint64(i))
 		creatorStress(r, stackCfg{Case: i, Mode: "stress", RealCleaner: i%2 == 0, Goroutines: 2 + rng.IntN(10), Actions: 3 + rng.IntN(5), DirFaultAt: -1, CleanFaultAt: -1})
 	}
 
 	// (5) scripted creator sequences, all fault positions.
-	for i := 0; i < r.Pick(10, 200); i++ {
+	for i := 0; i < r.Pick(8, 150); i++ {
 		for variant := 0; variant < 4; variant++ {
 			base := stackCfg{Case: i, Mode: "scripted", RealCleaner: variant&1 == 0, Holder: variant&2 != 0, Actions: 3 + i%4, DirFaultAt: -1, CleanFaultAt: -1}
 			nd, nc := creatorScripted(r, base)
@@ -114,7 +120,7 @@ func TestCheck(t *testing.T) {
 
 	// (6) LocalBuildExecutor.
 	outcomes := []string{"ok", "runner-error", "cancelled", "missing-command"}
-	for i := 0; i < r.Pick(30, 600); i++ {
+	for i := 0; i < r.Pick(30, 400); i++ {
 		rng := r.Rand(50, uint64(i))
 		var seq []string
 		for k := 0; k < 3+rng.IntN(3); k++ {
@@ -122,5 +128,70 @@ func TestCheck(t *testing.T) {
 		}
 		seq = append(seq, outcomes[i%len(outcomes)])
 		executorRuns(r, execCfg{Case: i, Executors: 1 + rng.IntN(4), Outcomes: seq, RealCleaner: i%3 != 0})
+	}
+}
+
+// replay re-runs the scenario recorded in a witness file.
+func replay(r *ev.Run, file string) {
+	var w struct {
+		Witness struct {
+			Scenario struct {
+				Type string          `json:"type"`
+				Cfg  json.RawMessage `json:"cfg"`
+			} `json:"scenario"`
+		} `json:"witness"`
+	}
+	b, err := os.ReadFile(file)
+	if err != nil || json.Unmarshal(b, &w) != nil {
+		r.Inconclusive("cannot read replay file %s", file)
+		return
+	}
+	raw := w.Witness.Scenario.Cfg
+	bad := func(err error) bool {
+		if err != nil {
+			r.Inconclusive("cannot decode scenario of %s: %v", file, err)
+		}
+		return err != nil
+	}
+	switch w.Witness.Scenario.Type {
+	case "invoker-stress":
+		var c stressCfg
+		if !bad(json.Unmarshal(raw, &c)) {
+			for i := 0; i < 20; i++ { // scheduling dependent
+				stressRound(r, c)
+			}
+		}
+	case "invoker-stepped":
+		var c steppedCfg
+		if !bad(json.Unmarshal(raw, &c)) {
+			runStepped(r, c)
+		}
+	case "clean-runner":
+		var c runnerCfg
+		if !bad(json.Unmarshal(raw, &c)) {
+			cleanRunnerRound(r, c)
+		}
+	case "failing-base":
+		var c failingBaseCfg
+		if !bad(json.Unmarshal(raw, &c)) {
+			cleanCreatorOverFailingBase(r, c)
+		}
+	case "creators-stress":
+		var c stackCfg
+		if !bad(json.Unmarshal(raw, &c)) {
+			creatorStress(r, c)
+		}
+	case "creators-scripted":
+		var c stackCfg
+		if !bad(json.Unmarshal(raw, &c)) {
+			creatorScripted(r, c)
+		}
+	case "executor":
+		var c execCfg
+		if !bad(json.Unmarshal(raw, &c)) {
+			executorRuns(r, c)
+		}
+	default:
+		r.Inconclusive("replay file %s has no replayable scenario", file)
 	}
 }
